@@ -85,7 +85,11 @@ def main(argv):
 
     last_flush = time.time()
     sample_per_clause = {}
-    for k in range(shard, ncases, nshards):
+    L = len(M.schedule(tier))
+    for k in range(ncases):
+        # rotate the shard assignment by one per schedule round so that every shard sees every clause
+        if (k + k // L) % nshards != shard:
+            continue
         name, i = M.case_plan(tier, k)
         clause = M.clauses[name]
         if clause.enumerated is not None:
